@@ -9,6 +9,7 @@ Lines (identical to what the Lean driver `runTimeout` prints):
     lock try | lock wait <t|inf>        lock.acquire(False) / lock.acquire(True, t) / `with lock:`
     olock try | olock wait <t|inf>      the same on the lock of the OTHER direction (op key `olock`: held by another thread
                                         for d ticks); never printed by the model: a timed call has no business with it
+    lock release                        lock.release() by the call that acquired it (the model prints it too: Obs.lockRelease)
     lock release-foreign                release() of a lock this call did not acquire while another thread holds it
     lock left-held                      the call returned without releasing the lock it acquired
     rcall <bufsize> | call <offered> <nbufs> | select <R|W> <wait|inf>
@@ -78,6 +79,7 @@ class ScriptedLock:
                 self.event = ("free",)
                 return
             raise RuntimeError("release unlocked lock")
+        self.world.log.append(f"{self.role} release")
         self.held = False
         self.event = ("free",)   # contention is over once we got it
 
